@@ -101,6 +101,9 @@ func (o *Op) Encode() string {
 		return o.Kind + ":" + flag(o.Flag)
 	case "UC":
 		return "UC:" + HexS(o.Names[0]) + ":" + HexS(o.Cb)
+	case "DU":
+		// AllowDataURIImages(): RequireParseableURLs(true) and the library's own check for data:
+		return "PU:1!UC:" + HexS("data") + ":" + HexS("datauri")
 	case "RW":
 		return "RW:" + HexS(o.Cb)
 	}
@@ -296,6 +299,8 @@ func (o *Op) Apply(p *bluemonday.Policy) {
 		p.AllowURLSchemes(o.Names...)
 	case "UC":
 		p.AllowURLSchemeWithCustomPolicy(o.Names[0], URLPolicy(o.Cb))
+	case "DU":
+		p.AllowDataURIImages()
 	case "SB":
 		vals := make([]bluemonday.SandboxValue, len(o.Names))
 		for i, n := range o.Names {
